@@ -16,10 +16,19 @@ Print Assumptions C01_wrap_is_twos_complement.
 (* truncating division and remainder: a = (a/b)*b + a%b, |a%b| < |b|, remainder takes the sign of the dividend *)
 Theorem C01_div_rem_truncate :
   forall t a b q r, tmin t <= a <= tmax t -> tmin t <= b <= tmax t ->
+    ~ (signed t = true /\ a = tmin t /\ b = -1) ->
     arith Div t a b = Some q -> arith Mod t a b = Some r ->
     a = q * b + r /\ Z.abs r < Z.abs b /\ (r = 0 \/ Z.sgn r = Z.sgn a) /\ q = Z.quot a b /\ r = Z.rem a b.
 Proof. exact div_mod_spec. Qed.
 Print Assumptions C01_div_rem_truncate.
+
+(* the only quotient that does not fit: MIN / -1 wraps to MIN at 8 and 16 bits (the 32/64-bit case faults in the
+   machine division and is left undefined: Sem.div_traps) *)
+Theorem C01_div_overflow_wraps :
+  forall t, signed t = true -> bits t < 32 ->
+    arith Div t (tmin t) (-1) = Some (tmin t) /\ arith Mod t (tmin t) (-1) = Some 0.
+Proof. exact div_overflow_wraps. Qed.
+Print Assumptions C01_div_overflow_wraps.
 
 (* the reference prescribes a behaviour for every accepted program: a program accepted by the reference type checker
    never gets stuck, whatever the fuel (type safety of FerretCore) — the oracle of the correspondence run is total *)
